@@ -62,8 +62,12 @@ where
   Cbor_beNat (bs : Bytes) : Nat := bs.foldl (fun acc x => acc * 256 + x.toNat) 0
 
 /-- `string_to_bigint`. -/
+def has0x : List Char → Bool
+  | '0' :: 'x' :: _ => true
+  | _ => false
+
 def stringToBigint (s : String) : Outcome Int :=
-  if s.startsWith "0x" then
+  if has0x s.toList then
     match hexToBytes s with
     | some b => if b.length = 16 then .ok (ofBE16 b) else .err "InvalidBytesForNumber"
     | none => .err "InvalidHex"
